@@ -237,11 +237,11 @@ def gen_simple(rng, reader):
     return sv_temporal(rng, reader)
 
 
-UNITS = ["m", "km/s", "m**2", "KM/(S**2)", "deg", "m / s"]
+UNIT_STRINGS = ["m", "km/s", "m**2", "KM/(S**2)", "deg", "m / s"]
 
 
 def gen_units_tok(rng):
-    u = rng.choice(UNITS)
+    u = rng.choice(UNIT_STRINGS)
     pad = rng.choice(("", "", " ", "  "))
     pad2 = rng.choice(("", "", " "))
     return Tok(UNITS, f"<{pad}{u}{pad2}>"), u
